@@ -23,6 +23,9 @@ def main():
     params = "--params" in args
     noise = "--noise" in args          # also insert a no-op call in front of every statement
     norename = "--no-rename" in args
+    branchy = 0                         # --branchy N: every Nth inserted statement is a guarded diagnostic print instead
+    if "--branchy" in args:
+        branchy = int(args[args.index("--branchy") + 1])
     keep = "--keep" in args
     only = None
     suffix = "_rn"
@@ -34,6 +37,8 @@ def main():
             only = re.compile(args[i + 1]); i += 1
         elif a == "--suffix":
             suffix = args[i + 1]; i += 1
+        elif a == "--branchy":
+            i += 1
         elif not a.startswith("--"):
             ids.append(a)
         i += 1
@@ -71,7 +76,10 @@ def main():
                     continue
                 seen.add(key)
                 nnoise += 1
-                edits.setdefault(s["file"], []).append((s["lo"], 0, "", "::std::hint::black_box(()); "))
+                text = "::std::hint::black_box(()); "
+                if branchy and nnoise % branchy == 0:
+                    text = "if ::std::hint::black_box(false) { eprintln!(\"noise {}\", %d); } " % nnoise
+                edits.setdefault(s["file"], []).append((s["lo"], 0, "", text))
         for b in ([] if norename else doc["bindings"]):
             if not b["renamable"] or (b["param"] and not params):
                 nskip += 1
